@@ -362,6 +362,8 @@ class Build:
         dsk = {}
         for i, n in enumerate(self.spec["nodes"]):
             k = self.key(i)
+            if k in dsk:
+                raise ValueError(f"generator error: duplicate key {k!r} in the graph spec")  # harness error, not a violation
             style = n.get("style", self.style)
             if style == "legacy":
                 dsk[k] = self.legacy(n["body"], top=i)
